@@ -79,21 +79,23 @@ theorem codec_float_bool (hP : P.Lawful) (a : Str) (w : Bool) (b : Bool)
       · simp [fromXml, floatFromXml, hP.float_ne_star x, hP.float_rt x]
       · simp [denote, hx]; exact Same.rfl' _
 
-theorem codec_dt_aware (hP : P.Lawful) (a : Str) (w : Bool) (t : P.T) :
+theorem codec_dt_aware (hP : P.Lawful) (a : Str) (w : Bool) (t : P.T) (hok : P.isoOk t = true) :
     CodecOk P ⟨.datetime, a, w⟩ (.aware t) := by
   refine Or.inl ⟨rfl, by simp [neDefault], reSet (P.iso t), rfl, xmlOk_reSet _ (hP.iso_xml t),
     .aware (P.truncMs t), ?_, ?_⟩
-  · simp [fromXml, reGet_reSet _ (hP.iso_shape t), hP.iso_rt t]
+  · simp [fromXml, reGet_reSet _ (hP.iso_shape t), hP.iso_rt t hok]
   · simp [denote]; exact Same.rfl' _
 
-theorem codec_dt_naive (hP : P.Lawful) (a : Str) (w : Bool) (n : P.N) (hv : (P.localize n).isSome = true) :
+theorem codec_dt_naive (hP : P.Lawful) (a : Str) (w : Bool) (n : P.N)
+    (hv : (match P.localize n with | some t => P.isoOk t | none => false) = true) :
     CodecOk P ⟨.datetime, a, w⟩ (.naive n) := by
   cases ht : P.localize n with
   | none => rw [ht] at hv; simp at hv
   | some t =>
+    rw [ht] at hv
     refine Or.inl ⟨rfl, by simp [neDefault], reSet (P.iso t), by simp [toXml, ht],
       xmlOk_reSet _ (hP.iso_xml t), .aware (P.truncMs t), ?_, ?_⟩
-    · simp [fromXml, reGet_reSet _ (hP.iso_shape t), hP.iso_rt t]
+    · simp [fromXml, reGet_reSet _ (hP.iso_shape t), hP.iso_rt t hv]
     · simp [denote, ht]; exact Same.rfl' _
 
 theorem codec_enum_str (a : Str) (w : Bool) (e : EnumCls) (n s : Str)
